@@ -12,6 +12,9 @@ use std::collections::BTreeMap;
 
 pub const NEED: u64 = 3;
 pub const RECONF: u64 = 1 << 62;
+/// seeds with bit 61 set: the generator first produced a pickle under another protocol and was then
+/// switched through the pub field `state.version`
+pub const RESWITCH: u64 = 1 << 61;
 
 fn is_ext(name: &str) -> bool {
     matches!(name, "EXT1" | "EXT2" | "EXT4")
@@ -82,11 +85,27 @@ pub fn scenario_reconfigured(p: u8, seed: u64) -> Scenario {
     sc
 }
 
+/// a first call under another protocol (lower and higher ones in turn), then the protocol is switched
+pub fn scenario_reswitched(p: u8, seed: u64) -> Scenario {
+    let other = [(p + 1) % 6, (p + 5) % 6, (p + 3) % 6][(seed % 3) as usize];
+    let c = Config::default_for(other);
+    let mut sc = Scenario::solo(c, Entropy::Rand(seed ^ 0x3333));
+    sc.history.push(crate::desc::HOp::SetProtocol(p));
+    sc.history.push(crate::desc::HOp::Gen(Entropy::Rand(seed)));
+    sc
+}
+
 /// opcode names (deduplicated) of one default-settings run
 fn names_of(p: u8, flags: bool, seed: u64) -> Option<(Vec<&'static str>, bool)> {
-    // seeds with bit 62 set mark the "reconfigured generator" batch
+    // seeds with bit 62 set mark the "reconfigured generator" batch, bit 61 the "switched protocol" one
     let reconf = seed & RECONF != 0;
-    let sc = if reconf { scenario_reconfigured(p, seed & !RECONF) } else { scenario_for(p, flags, seed) };
+    let sc = if seed & RESWITCH != 0 {
+        scenario_reswitched(p, seed & !RESWITCH)
+    } else if reconf {
+        scenario_reconfigured(p, seed & !RECONF)
+    } else {
+        scenario_for(p, flags, seed)
+    };
     let recs = exec::run_scenario(&sc, Trace::Off, false);
     let out = recs.last()?.outcome.bytes()?;
     let (ops, err) = lexer::lex(out);
@@ -275,6 +294,28 @@ pub fn sweep(tier: Tier, verif_seed: u64) -> ReachOutcome {
             ));
         }
     }
+    // fourth batch: the protocol of a used generator is switched through `state.version` (a
+    // per-generator copy of the vocabulary must follow the switch)
+    for p in 0..6u8 {
+        let b = run_batch(p, false, RESWITCH, max_seeds, &mut stats);
+        for (n, c) in &b.counts {
+            if *c > 0 {
+                pairs.insert((p, false, *n));
+            }
+        }
+        detail.push(json!({"protocol": p, "ext_and_buffer_enabled": false, "generator": "used under another protocol, then switched", "seeds_tried": b.seeds_tried, "complete": b.complete()}));
+        for m in b.missing() {
+            let class = if m.starts_with('<') {
+                format!("frame-variant-unreached({},{})", p, if m.contains("unframed") { "unframed" } else { "framed" })
+            } else {
+                format!("unreached({},{})", p, m)
+            };
+            violations.push((
+                json!({"protocol": p, "flags": false, "reswitched": true, "target": m, "seeds": b.seeds_tried}),
+                Violation::new("C12", class, format!("{} never occurs in protocol-{} output for {} seeds on a generator that was switched to this protocol after a first call under another one", m, p, b.seeds_tried)),
+            ));
+        }
+    }
     ReachOutcome { stats, violations, pairs_seen: pairs.len(), detail: json!(detail) }
 }
 
@@ -285,7 +326,13 @@ pub fn replay(body: &Value) -> Vec<Violation> {
     let target = body["target"].as_str().unwrap_or("").to_string();
     let seeds = body["seeds"].as_u64().unwrap_or(0);
     let mut st = Stats::default();
-    let base = if body["reconfigured"].as_bool() == Some(true) { RECONF } else { 0 };
+    let base = if body["reswitched"].as_bool() == Some(true) {
+        RESWITCH
+    } else if body["reconfigured"].as_bool() == Some(true) {
+        RECONF
+    } else {
+        0
+    };
     let b = run_batch(p, flags, base, seeds, &mut st);
     b.missing()
         .into_iter()
